@@ -575,7 +575,12 @@ pub fn process<I: BufRead, O: Write>(
                         if !params.is_empty() {
                             for v in caps.get(2).unwrap().as_str().split(',') {
                                 let vx = v.trim_start();
-                                let re = Regex::new(&format!("\\b{}\\b", vx)).unwrap();
+                                let re = Regex::new(&format!("\\b{}\\b", vx)).map_err(|_| Error::Syntax {
+                                    filename: filename.clone(),
+                                    included_in: included_in.clone(),
+                                    line,
+                                    msg: "Malformed macro definition".to_string(),
+                                })?;
                                 value = re.replace_all(&value, format!("$${}", vx)).to_string();
                                 //rex += &format!("(?P<{}>[^,]*?),", vx);
                                 rex += &format!(
@@ -589,6 +594,15 @@ pub fn process<I: BufRead, O: Write>(
                         rex += "\\)";
                         value = value.replace("##", ""); // Double hash
                         debug!("regex:{}", &rex);
+                        // An empty or repeated parameter name does not make a valid pattern
+                        if Regex::new(&rex).is_err() {
+                            return Err(Error::Syntax {
+                                filename: filename.clone(),
+                                included_in: included_in.clone(),
+                                line,
+                                msg: "Malformed macro definition".to_string(),
+                            });
+                        }
                         context.define_ex(mcro, (rex, value));
                     }
                 }
